@@ -35,23 +35,7 @@ def c_case(c02, design, out):
 
 def core_mutants(c02, seed, bases, per_class):
     """exactly the mutants of c02.run()'s `single-fault-mutants` stream (same rng streams, same order)"""
-    muts, meta = [], []
-    for cls, m in c02._corpus():
-        muts.append(m); meta.append(dict(cls=cls, base=-1, top=True))
-    for k, base in enumerate(bases):
-        reach = c02.reachable(base)
-        ss = [s for s in c02.sites(base) if s[0] in reach]
-        if not ss:
-            continue
-        deep = [s for s in ss if s[0] != base["top"]]
-        for cls, f in c02.MUTATORS.items():
-            for j in range(per_class):
-                rr = core.rng(seed, "C02", cls, k * 16 + j)
-                site = rr.choice(deep) if deep and rr.random() < 0.5 else rr.choice(ss)
-                m = f(rr, copy.deepcopy(base), site)
-                if m is not None:
-                    muts.append(m); meta.append(dict(cls=cls, base=k, top=site[0] == base["top"]))
-    return muts, meta
+    return c02.gen_mutants(seed, bases, per_class)
 
 
 def corpus():
